@@ -413,7 +413,7 @@ Definition val_math_env_gen3 (cf df q fx : bool) (vars units : list string) (roo
 (** 064d865 is in /repo *)
 Definition ci_comment_fix_committed : bool := true.
 (** flipped to true by the orchestrator when fixes/C01-diff-operand-ci.diff is committed to /repo *)
-Definition diff_ci_fix_committed : bool := false.
+Definition diff_ci_fix_committed : bool := true.
 
 (** the validator as it is in /repo now: what the drivers run *)
 Definition val_math_env_head : list string -> list string -> xml -> list rule :=
@@ -712,8 +712,8 @@ Definition ana_math_env_gen (F : afix) (vars : list string) (root : xml) : res (
 
 (** the analyser / generator as they are in /repo now (064d865 is in; the other two flags are flipped by the orchestrator
     when fixes/C01-analyser-optional-children.diff / fixes/C01-generator-null-operand.diff are committed) *)
-Definition analyser_guards_fix_committed : bool := false.
-Definition generator_null_fix_committed : bool := false.
+Definition analyser_guards_fix_committed : bool := true.
+Definition generator_null_fix_committed : bool := true.
 Definition afix_committed : afix :=
   {| af_ci_comment := ci_comment_fix_committed; af_guards := analyser_guards_fix_committed;
      af_gen_null := generator_null_fix_committed |}.
